@@ -306,6 +306,14 @@ func (ex *Exec) appendOp(st *State, site ssa.Instruction, sv Value, tv Value, et
 		if cp < 8 {
 			cp = 8
 		}
+		if s.Len.IsConst() && !ex.inE2 {
+			// (sequential runs; inside the scheduler-driven concurrent runs the generous capacity is kept: every
+			// re-allocation multiplies the guarded alternatives there)
+			// a slice of known length grows exactly as the Go 1.23 runtime grows it (doubling below 256 elements,
+			// rounded up to an allocation size class): whether an earlier &s[i] still points into the live backing
+			// array after an append depends on it
+			cp = goGrowCap(s.Cap, need, ex.sizeOf(et))
+		}
 		e := make([]Value, cp)
 		z := ex.zero(et)
 		for i := range e {
@@ -1036,3 +1044,45 @@ type ufRec struct {
 	ok *smt.Term
 }
 type ufRecs struct{ list []ufRec }
+
+var goSizeClasses = []int64{8, 16, 24, 32, 48, 64, 80, 96, 112, 128, 144, 160, 176, 192, 208, 224, 240, 256, 288, 320, 352, 384, 416, 448, 480,
+	512, 576, 640, 704, 768, 896, 1024, 1152, 1280, 1408, 1536, 1792, 2048, 2304, 2688, 3072, 3200, 3456, 4096, 4864, 5120, 5376, 6144,
+	6528, 6784, 6912, 8192, 9472, 9728, 10240, 10880, 12288, 13568, 14336, 16384, 18432, 19072, 20480, 21760, 24576, 27264, 28672, 32768}
+
+func goRoundUpSize(n int64) int64 {
+	for _, c := range goSizeClasses {
+		if n <= c {
+			return c
+		}
+	}
+	const page = 8192
+	return (n + page - 1) / page * page
+}
+
+// goGrowCap: capacity after runtime.growslice (Go 1.23, amd64) for a slice of capacity oldCap that must hold newLen
+// elements of elemSize bytes.
+func goGrowCap(oldCap, newLen int, elemSize int64) int {
+	newcap := newLen
+	if doublecap := oldCap * 2; newLen <= doublecap {
+		if oldCap < 256 {
+			newcap = doublecap
+		} else {
+			newcap = oldCap
+			for newcap < newLen {
+				newcap += (newcap + 3*256) >> 2
+			}
+		}
+	}
+	if newcap < newLen {
+		newcap = newLen
+	}
+	if elemSize <= 0 {
+		return newcap
+	}
+	return int(goRoundUpSize(int64(newcap)*elemSize) / elemSize)
+}
+
+func (ex *Exec) sizeOf(t types.Type) int64 {
+	defer func() { recover() }()
+	return types.SizesFor("gc", "amd64").Sizeof(t)
+}
